@@ -409,6 +409,11 @@ package db
 // channels, #2 = star channel. The loop "invariant" is trivially true at the loop head (no call on record yet) and
 // is a real obligation at the end of every iteration. change.Skipped is read in the state the code reads it in.
 //@ func channelCacheImpl.AddToCache
+// lock discipline: the high cached sequence is advanced before validFromLock is released (a channel cache created in between
+// would take validFrom = this sequence and stay empty: the change would never be announced to later requests)
+//@   also C05: high-seq-under-valid-from-lock
+//@   also C01: high-seq-under-valid-from-lock
+//@   before[high-seq-under-valid-from-lock] call Unlock called(updateHighCacheSequence, 1)
 //@   only-contracts none
 //@   modifies *
 //@   before[late-same-cache]  call AddLateSequence#1 $0 == callres(getActiveChannelCache, 1, 0) && $1 == change
